@@ -190,7 +190,8 @@ claim("C03",
   "parameter lists inside the guard (distinct names, plain python names, no python name equal to another parameter's wire name) the sequential str.replace placeholder rewrite of sort_parameters followed by "
   "str.format fills every {wire name} slot with its own argument; refutation witness multi_body_same_type; Multipart.v (to_multipart parts) mp_*; Client.v (AuthenticatedClient life cycle as a state machine over "
   "a heap of aliased headers dicts and cached httpx clients): own_credential - for EVERY sequence of new / evolve / with_headers / with_timeout / token assignment / sync+asyncio use inside the guard, each use carries exactly the "
-  "client's own credential - and derived_sends_own_token, with three refutations showing the guards are necessary. The model is tied to the code by executing the GENERATED _get_kwargs in a fresh interpreter on an atlas "
+  "client's own credential - and derived_sends_own_token, with three refutations showing the guards are necessary; Cookies.v (cookie jars of clients: snapshots at first use, with_cookies also updating the original's live httpx clients): "
+  "cookies_sent - for EVERY sequence each request carries exactly the client's own jar overridden by what was added through that very client after its httpx client was built. The model is tied to the code by executing the GENERATED _get_kwargs in a fresh interpreter on an atlas "
   "of operations (every parameter kind x location, out-of-order path parameters, path-item overrides, one name in several locations, reserved names, bodies, security) plus random operations and comparing "
   "method/url/params/cookies/headers/json/data with Endpoint.get_kwargs evaluated by vm_compute; an oracle compares the request captured behind httpx.MockTransport (sync and asyncio variants, with the generated "
   "client building its own httpx client incl. credential header) with an expectation computed from the document; client operation sequences (fixed + random, a quarter outside the guard) are run on the generated "
